@@ -10,6 +10,12 @@ mod rlp;
 pub use self::{
     eip1559::Eip1559Transaction, eip2930::Eip2930Transaction, legacy::LegacyTransaction,
 };
+/// Verification-only re-export of the private RLP primitives.
+#[cfg(feature = "verif-hooks")]
+pub mod verif_rlp {
+    pub use super::rlp::{bytes, iter, len, list, uint};
+}
+
 use crate::{account::Signature, serialization::JsonObject};
 use ethdigest::Digest;
 use serde::{
